@@ -65,6 +65,7 @@ def check(ro, where='ro', base='roCreate'):
             want = Ellipsis          # a form this oracle does not read: not compared
         if want is not Ellipsis and not access.tclose(vals['start_time'], want):
             mism('ro.start_time', want, vals['start_time'])
+    all_script, all_body = [], []
     for k, (st, x) in enumerate(zip(stories, xs)):
         sv = {}
         for name in access.STORY_ACCESSORS:
@@ -79,6 +80,14 @@ def check(ro, where='ro', base='roCreate'):
             mism('Story.duration', access.x_duration(x), sv['duration'])
         if 'xml' in sv and (sv['xml'] is None or xmlcmp.canon(sv['xml']) != xmlcmp.canon(x)):
             mism('Story.xml', 'the story element', 'another element')
+        # script / body against the paragraphs and items of the element (same oracle as C17)
+        from checks.c17 import _body_eq, _show, _showlib
+        if 'script' in sv and sv['script'] != access.x_script(x):
+            mism('Story.script', access.x_script(x), sv['script'])
+        if 'body' in sv and not _body_eq(sv['body'], access.x_body(x)):
+            mism('Story.body', _show(access.x_body(x)), _showlib(sv['body']))
+        all_script += access.x_script(x)
+        all_body += access.x_body(x)
         xi = [c for c in x if c.tag == 'item']
         items = sv.get('items')
         if items is None:
@@ -99,6 +108,11 @@ def check(ro, where='ro', base='roCreate'):
                               ('mos_id', access._text(xe, 'mosID')), ('note', access.x_note(xe))):
                 if name in iv and iv[name] != exp:
                     mism(f'Item.{name}', exp, iv[name])
+    from checks.c17 import _body_eq, _show, _showlib
+    if 'script' in vals and vals['script'] != all_script:
+        mism('ro.script', all_script, vals['script'])
+    if 'body' in vals and not _body_eq(vals['body'], all_body):
+        mism('ro.body', _show(all_body), _showlib(vals['body']))
     return fails
 
 
